@@ -733,7 +733,7 @@ func (c *FnCtx) matchOnSend(elem types.Type, kind string) []*OnSend {
 			k = want[:i]
 			want = want[i+1:]
 		}
-		if k == kind && want == name {
+		if k == kind && want == name && (os.DefPkg == "" || os.DefPkg == c.fi.Pkg.PkgPath) {
 			out = append(out, os)
 		}
 	}
